@@ -64,6 +64,23 @@ def _grid_case(seed, i):
                   "nonorthogonal_xpoint_poloidal_spacing_length": rng.choice((0.8, 1.0)),
                   "nonorthogonal_xpoint_poloidal_spacing_range": 0.05})
         o.pop("curvature_type", None)
+    if i % 13 == 8:
+        # stratum: the situation in which a fall-back method has the most to correct - a
+        # coarse FineContour (large interpolation error in regridded points) with Newton
+        # failing, so that the last method of the default chain produces the points
+        rng2 = core.stream(s, "coarse")
+        case = FS.make_case(rng2, s, kind="refine", entry=("api-circ", "circular")[i % 2])
+        case["fault"].update({"buggify": {"mode": "content", "key": s,
+                                          "arm": {"newton": rng2.choice((0.3, 1.0))}},
+                              "clock": None, "sub": "fallback"})
+        case["options"].update({
+            "orthogonal": False, "ny": 8, "finecontour_Nfine": 20,
+            "nonorthogonal_spacing_method": "poloidal_orthogonal_combined",
+            "nonorthogonal_xpoint_poloidal_spacing_length": rng2.choice((0.8, 1.0)),
+            "nonorthogonal_xpoint_poloidal_spacing_range": 0.05,
+            "refine_methods": ["integrate+newton", "integrate"]})
+        case["options"].pop("curvature_type", None)
+        case["options"].pop("refine_timeout", None)
     case["check_psi"] = True
     return case
 
